@@ -1394,7 +1394,10 @@ Qed.
 
 Lemma consts_ok :
   1 <= MAX_FRAME_LEN /\ MAX_FRAME_LEN + TAG <= SNOW_MAX /\
-  1 <= MAX_READ_AHEAD_FACTOR /\ 1 <= MAX_WRITE_BUFFER_SIZE.
+  1 <= MAX_READ_AHEAD_FACTOR /\ 1 <= MAX_WRITE_BUFFER_SIZE /\
+  (* the Default impls of the TCP and WebSocket transport configurations *)
+  1 <= TCP_NOISE_READ_AHEAD_DEFAULT /\ 1 <= TCP_NOISE_WRITE_BUFFER_DEFAULT /\
+  1 <= WS_NOISE_READ_AHEAD_DEFAULT /\ 1 <= WS_NOISE_WRITE_BUFFER_DEFAULT.
 Proof. vm_compute. repeat split; discriminate. Qed.
 
 (* with the limit the code had before the fix (65520) a single maximal chunk is refused by snow *)
